@@ -479,7 +479,7 @@ def emit(facts, rep, prop, rules, floors):
                 # key: rule + construct (site) so that a different violation of the same rule is still new
                 rep.violation(r, inst, site, why, key=f'{r}|{site}|{why[:60]}', fn=CLS)
             else: rep.inconclusive(r, inst, site, why)
-        if not any_unknown: rep.floor(f'{r} instances', len(seen), floors.get(r, 1))
+        if not any_unknown and all(ok is True for ok, _, _ in seen): rep.floor(f'{r} instances', len(seen), floors.get(r, 1))
     if any_unknown and not any(o['status'] == 'inconclusive' for o in rep.obligations):
         for r in a.results:
             for ok, inst, site, why in a.results[r]:
